@@ -161,6 +161,9 @@ func waitsForTask(ins ssa.Instruction) bool {
 	if isCompletionRecv(ins) {
 		return true
 	}
+	if _, isCall := ins.(*ssa.Call); !isCall {
+		return false
+	}
 	if cc := callOf(ins); cc != nil {
 		if callee := cc.StaticCallee(); callee != nil && callee.Pkg != nil && ins.Parent() != nil && callee.Pkg == topFunc(ins.Parent()).Pkg {
 			return mustWait(callee)
@@ -296,6 +299,9 @@ func runR152(c *Ctx) {
 						return true
 					}
 					// r.Close() of the same receiver waits (chunkReaderWithBackgroundTask)
+					if _, isDefer := i.(*ssa.Defer); isDefer {
+						return false // runs at function exit, i.e. after the load
+					}
 					if cc := callOf(i); cc != nil && cc.StaticCallee() != nil && cc.StaticCallee().Name() == "Close" && len(cc.Args) > 0 && len(g.Params) > 0 && cc.Args[0] == ssa.Value(g.Params[0]) {
 						return true
 					}
@@ -363,8 +369,11 @@ func dominatedByNilEdgeOrJoin(b *ssa.BasicBlock, field string) bool {
 			}
 			seen[x] = true
 			for _, i := range x.Instrs {
-				if isCompletionRecv(i) {
+				if waitsForTask(i) {
 					w = true
+				}
+				if _, isCall := i.(*ssa.Call); !isCall {
+					continue // a deferred Close runs at function exit, after the load
 				}
 				if cc := callOf(i); cc != nil && cc.StaticCallee() != nil && cc.StaticCallee().Name() == "Close" {
 					w = true
